@@ -1209,6 +1209,19 @@ class Interp:
                 ok = False
             elif isinstance(k, type) and isinstance(v, Obj) and k in (str, int, float, bool, list, tuple, dict, set, bytes):
                 ok = False
+            if ok is None:
+                # as `isinstance(subject, Class)` would be answered (the scenario's knowledge of its own objects included)
+                nm_ = self._with_temps({'__subj': v}, s)
+                call_ = ast.Call(func=ast.Name(id='isinstance', ctx=ast.Load()), args=[ast.Name(id=nm_['__subj'], ctx=ast.Load()), p.cls], keywords=[])
+                for x in ast.walk(call_):
+                    if not hasattr(x, 'lineno'):
+                        x.lineno, x.col_offset, x.end_lineno, x.end_col_offset = getattr(p, 'lineno', 0), 0, getattr(p, 'lineno', 0), 0
+                try:
+                    r_ = self.ev(call_, s)
+                finally:
+                    s.env.pop(nm_['__subj'], None)
+                if isinstance(r_, bool):
+                    ok = r_
             if ok is not True:
                 return ok
             res = True
